@@ -157,6 +157,10 @@ def gen(rng, tier):
     mem = rng.choice([0, 1, 1, 2, 3])
     big = rng.random() < 0.5
     v = [rng.randint(-1000, 1000) if big else rng.randint(-6, 6) for _ in range(ndim)]
+    if rng.random() < 0.15:
+        # drift of ~10^5 px per frame: accumulated coordinates reach 10^6 (still exact: quarter pixels need 22 + 2 bits);
+        # whether a pair is within search_range must not depend on where the predictor has moved the search origin
+        v = [rng.choice([-1, 1]) * rng.choice([65536, 131072, 98304, 262144]) for _ in range(ndim)]
     t0 = rng.choice([0, 0, 3, -2, 10])
     tags, t = [], t0
     for _ in fr:
